@@ -28,6 +28,7 @@ class Config(object):
         resume_only_at_rest=True,  # protocol: resume is requested once the workflow reports paused
         crash=False,
         hold=0,
+        interim=0,  # intermediate action reports (pausing / canceling) per history
         rerun=0,  # number of rerun requests per history
         rerun_mode="default",  # default | tasks | all | failed | failed-pairs
         rerun_outcomes=None,  # outcome menu after a rerun (None: same menu)
@@ -52,7 +53,7 @@ class Config(object):
 
     def initial_budget(self):
         b = {}
-        for k in ("pause", "resume", "cancel", "hold", "rerun"):
+        for k in ("pause", "resume", "cancel", "hold", "rerun", "interim"):
             if getattr(self, k):
                 b[k] = getattr(self, k)
         if self.dev is not None:
@@ -97,6 +98,13 @@ def gen_moves(sim, cfg):
         if b.get("hold"):
             for idx, a in enumerate(h["inflight"]):
                 moves.append((["hold", idx, list(a)], 1, "hold"))
+        if b.get("interim") and not terminal:
+            for idx, a in enumerate(h["inflight"]):
+                done = h.get("interim") or []
+                if h["cancel_req"] and list(a) + [st.CANCELING] not in done:
+                    moves.append((["interim", idx, st.CANCELING, list(a)], 1, "interim"))
+                elif h["pause_req"] and status == st.PAUSING and list(a) + [st.PAUSING] not in done:
+                    moves.append((["interim", idx, st.PAUSING, list(a)], 1, "interim"))
         for idx, a in enumerate(h["held"]):
             for (stt, r) in scn.menu(a[0]):
                 moves.append((["release", idx, stt, r, list(a)], 1, None))
